@@ -268,11 +268,14 @@ func (w *kqueue) AddWith(name string, opts ...addOpt) error {
 		return fmt.Errorf("%w: %s", xErrUnsupported, with.op)
 	}
 
-	_, err := w.addWatch(name, noteAllEvents, false)
+	path, err := w.addWatch(name, noteAllEvents, false)
 	if err != nil {
 		return err
 	}
-	w.watches.addUserWatch(name)
+	if path == "" { // Socket or named pipe: nothing is watched.
+		return nil
+	}
+	w.watches.addUserWatch(filepath.Clean(name))
 	return nil
 }
 
